@@ -31,6 +31,10 @@ func c20Code(cmd string, p c20Prog) string {
 		act = "if (eq $x " + p.k + ") { break }; "
 	case "fail":
 		act = "if (eq $x " + p.k + ") { fail boom }; "
+	case "failall":
+		act = "fail boom-$x; "
+	case "breakfail":
+		act = "if (eq $x a) { break }; if (eq $x b) { fail boom-b }; "
 	}
 	return fmt.Sprintf("put %s | %s {|x| enter $x; try { %sput $x } finally { leave $x } }", strings.Join(p.inputs, " "), cmd, act)
 }
@@ -46,6 +50,10 @@ func c20Progs() []c20Prog {
 			}
 			if len(in) == 3 {
 				kinds = append(kinds, struct{ kind, k string }{"break", in[1]})
+			}
+			if len(in) >= 2 {
+				// several abnormal ends in one run: every failure must be reported
+				kinds = append(kinds, struct{ kind, k string }{"failall", ""}, struct{ kind, k string }{"breakfail", ""})
 			}
 			for _, kd := range kinds {
 				p := c20Prog{inputs: in, workers: w, kind: kd.kind, k: kd.k}
@@ -132,7 +140,8 @@ func c20Oracle(p c20Prog) func(r *vsched.Result) (string, string) {
 		// expected outputs: every called element that does not break/fail puts itself
 		var wantOut []string
 		for x := range entered {
-			if (p.kind == "break" || p.kind == "fail") && x == p.k || p.kind == "fail2" {
+			if (p.kind == "break" || p.kind == "fail") && x == p.k || p.kind == "fail2" || p.kind == "failall" ||
+				p.kind == "breakfail" && (x == "a" || x == "b") {
 				continue
 			}
 			wantOut = append(wantOut, x)
@@ -164,6 +173,22 @@ func c20Oracle(p c20Prog) func(r *vsched.Result) (string, string) {
 				return "exception-not-reported", fmt.Sprintf("%q: callback for %s failed but result is %s", p.code, p.k, res)
 			}
 			if entered[p.k] == 0 && strings.TrimSpace(errs) != "ok" {
+				return "unexpected-exception", fmt.Sprintf("%q: %s", p.code, res)
+			}
+		case "failall":
+			for x := range entered {
+				if !strings.Contains(errs, "boom-"+x) {
+					return "exception-not-reported", fmt.Sprintf("%q: the callback for %s failed with boom-%s but the result is %s", p.code, x, x, res)
+				}
+			}
+			if len(entered) == 0 && strings.TrimSpace(errs) != "ok" {
+				return "unexpected-exception", fmt.Sprintf("%q: %s", p.code, res)
+			}
+		case "breakfail":
+			if entered["b"] == 1 && !strings.Contains(errs, "boom-b") {
+				return "exception-not-reported", fmt.Sprintf("%q: the callback for b failed (after or while a broke) but the result is %s", p.code, res)
+			}
+			if entered["b"] == 0 && strings.TrimSpace(errs) != "ok" {
 				return "unexpected-exception", fmt.Sprintf("%q: %s", p.code, res)
 			}
 		case "fail2":
@@ -209,7 +234,7 @@ func TestVerifC20(t *testing.T) {
 		return
 	}
 	vk.Run(t, "C20", "exploration", func(c *vk.Ctx) {
-		c.Rule(fmt.Sprintf("peach over 0..3 inputs x num-workers in {1,2,+inf} x callbacks {put, break on an element, fail on an element}, and run-parallel with 2-3 functions, on the real Evaler; every schedule with <=%d departures from the default goroutine (one less for the 3-input programs); class = distinct (program, observation log, blocking profile)", cfg.Bound))
+		c.Rule(fmt.Sprintf("peach over 0..3 inputs x num-workers in {1,2,+inf} x callbacks {put, break on an element, fail on an element, every element fails with its own message, one breaks and another fails}, and run-parallel with 2-3 functions, on the real Evaler; every schedule with <=%d departures from the default goroutine (one less for the 3-input programs); class = distinct (program, observation log, blocking profile)", cfg.Bound))
 		c.Assume("pkg/eval rewritten for the controlled scheduler; x/sync/semaphore compiled from its real source the same way; one-worker peach is compared with the real `each` run on the same callback")
 		vshard.Run(c, c20Scenarios(), cfg)
 	})
